@@ -1097,7 +1097,11 @@ func (e *rpcEnv) localOp(op string) string {
 		if err != nil || !p.Interface().IsValid() {
 			return "skip"
 		}
-		e.handles = append(e.handles, p.Interface().Client().AddRef())
+		hc := p.Interface().Client().AddRef()
+		if hc == nil {
+			hc = new(capnp.Client) // a null capability: the handle exists (a nil entry would mean "released" here)
+		}
+		e.handles = append(e.handles, hc)
 		return "h" + strconv.Itoa(len(e.handles)-1)
 	case 'R', 'r':
 		n := atoi(f[0])
@@ -1445,6 +1449,59 @@ func execRPC(f []string) string {
 
 // ---- generators ----
 
+// outboundScript: the local side drives the Conn (Bootstrap, calls on handles, pipelined calls, handles taken from
+// results, releases of handles and results, cancellation, Close) and the peer answers with Returns carrying
+// senderHosted / senderPromise / null / unknown descriptors.  Only ops inside Model.RpcQ's domain (M stream):
+// no incoming calls, no descriptors naming the Conn's own exports.
+func outboundScript(r *lib.Rng, n int) string {
+	var ops []string
+	handles, lcalls := 0, 0
+	add := func(s string) { ops = append(ops, s) }
+	add("lB")
+	handles++
+	for i := 1; i < n; i++ {
+		switch t := r.Intn(100); {
+		case t < 8:
+			add("lB")
+			handles++
+		case t < 32:
+			add("lC" + strconv.Itoa(r.Intn(handles)) + ":" + strconv.Itoa(r.Pick(0, 0, 2, 3)))
+			lcalls++
+		case t < 42:
+			if lcalls > 0 {
+				add("lP" + strconv.Itoa(r.Intn(lcalls)) + ":" + strconv.Itoa(r.Pick(0, 0, 0, 1)) + ":" + strconv.Itoa(r.Pick(0, 2)))
+				lcalls++
+			}
+		case t < 50:
+			if lcalls > 0 {
+				add("lH" + strconv.Itoa(r.Intn(lcalls)) + ":" + strconv.Itoa(r.Pick(0, 0, 0, 1)))
+				handles++ // (possibly skipped: then later ops on the missing handle are skipped on both sides)
+			}
+		case t < 60:
+			add("lR" + strconv.Itoa(r.Intn(handles)))
+		case t < 65:
+			if lcalls > 0 {
+				add("lX" + strconv.Itoa(r.Intn(lcalls)))
+			}
+		case t < 73:
+			if lcalls > 0 {
+				add("lY" + strconv.Itoa(r.Intn(lcalls)))
+			}
+		case t < 98:
+			tgt := "Q" + strconv.Itoa(r.Pick(0, 0, 0, 1, 2))
+			if r.Intn(12) == 0 {
+				tgt = strconv.Itoa(r.Intn(5)) // maybe a question that does not exist (the connection aborts), or a cancelled one
+			}
+			kind := r.PickS("boot:s1", "boot:s1", "boot:s2", "boot:m3", "boot:n", "boot:x1", "ok", "ok", "ok:s1", "ok:s2", "ok:s1+s1", "ok:s2+s1",
+				"ok:n", "ok:x1", "ok:s1+n+m3", "ok:m3", "exc", "exc")
+			add("pR" + tgt + ":" + kind)
+		default:
+			add("lZ")
+		}
+	}
+	return strings.Join(ops, ",")
+}
+
 // inboundScript: the peer drives the Conn (Bootstrap, Calls on exports and promised answers, Finish, Release,
 // application returns).  Only ops inside the Lean model's domain (M stream).
 func inboundScript(r *lib.Rng, n int) string {
@@ -1546,6 +1603,9 @@ func genC06(rec *lib.Rec, r *lib.Rng, thorough bool) {
 	n /= Shards
 	for i := 0; i < n; i++ {
 		rec.Op("M", "rpc script "+strconv.Itoa(r.Pick(1, 1, 1, 0))+" "+inboundScript(r, 3+r.Intn(14)), true)
+	}
+	for i := 0; i < n; i++ {
+		rec.Op("M", "rpcq script "+outboundScript(r, 3+r.Intn(18)), true)
 	}
 	genRPCCheck(rec, r, n/2, false, false)
 }
@@ -2009,6 +2069,9 @@ func genC07(rec *lib.Rec, r *lib.Rng, thorough bool) {
 	genRPCCheck(rec, r, n/Shards/2, false, false)
 	for i := 0; i < n/Shards/2; i++ {
 		rec.Op("M", "rpc script 1 "+inboundScript(r, 6+r.Intn(14)), true)
+	}
+	for i := 0; i < n/Shards/2; i++ {
+		rec.Op("M", "rpcq script "+outboundScript(r, 4+r.Intn(18)), true)
 	}
 }
 
